@@ -101,20 +101,28 @@ class Config:
         self.exprs, self.cutoff, self.kac, self.kan, self.kc, self.deny = exprs, cutoff, kac, kan, kc, deny
 
 
-def keep_entry(e: Entry, cfg: Config, denylisted: bool):
-    """True / False, or None where property text and documentation do not decide."""
+def keep_entry(e: Entry, cfg: Config, denylisted: bool, coding=None):
+    """True / False, or None where property text and documentation do not decide.
+    `coding`: the set of coding transcripts the command knows (default: the reference's).  Passing the empty
+    set gives the predicate "as if no transcript were coding" - used ONLY to characterise the known defect of
+    the --annotation-gtf path (it cannot know which transcripts are coding), never as the expectation."""
+    canonical = e.canonical
+    if coding is None:
+        coding = CODING
+    else:
+        canonical = (not e.kind.startswith(('circ', 'ci-'))) and e.txs[0] in coding
     if cfg.deny and denylisted:
         if not cfg.kc:
             return False
-        if e.canonical is None:
+        if canonical is None:
             return None
-        if not e.canonical:
+        if not canonical:
             return False
     if e.exempt:
         return True
-    if cfg.kac and all(t in CODING for t in e.txs):
+    if cfg.kac and all(t in coding for t in e.txs):
         return True
-    if cfg.kan and all(t not in CODING for t in e.txs):
+    if cfg.kan and all(t not in coding for t in e.txs):
         return True
     if cfg.exprs is None:
         return True
@@ -140,14 +148,14 @@ def misc_ok(seq, enzyme, rng):
     return (lo is None or m >= lo) and (hi is None or m <= hi)
 
 
-def expected(peptide_entries, seq, cfg: Config, denylisted: bool, enzyme=None, rng=None):
+def expected(peptide_entries, seq, cfg: Config, denylisted: bool, enzyme=None, rng=None, coding=None):
     """-> (must_keep, may_keep): lists of entries (in input order) that must / may be in the output
     header.  An empty may_keep means the peptide must be absent."""
     if not misc_ok(seq, enzyme, rng):
         return [], []
     must, may = [], []
     for e in peptide_entries:
-        k = keep_entry(e, cfg, denylisted)
+        k = keep_entry(e, cfg, denylisted, coding)
         if k is True:
             must.append(e)
             may.append(e)
